@@ -50,6 +50,13 @@ class FMMetrics(Metrics):  # pylint: disable=too-many-instance-attributes
     def get_result(self) -> list[dict[str, Any]]:
         return self.result
 
+    def execute(self, model: VariabilityModel) -> 'FMMetrics':
+        # The base class appends to the result, so it is reset to not accumulate the metrics
+        # of the models previously analyzed with this object.
+        self.result = []
+        super().execute(model)
+        return self
+
     def calculate_metamodel_metrics(self, model: VariabilityModel) -> list[dict[str, Any]]:
         self.model = cast(FeatureModel, model)
 
